@@ -753,8 +753,22 @@ def external(I, dotted):
     if dotted in _EXT_CONST:
         return _EXT_CONST[dotted]
     mod, _, name = dotted.rpartition(".")
-    if dotted in ("numpy", "math", "os", "os.path", "sys", "warnings", "copy", "numpy.linalg"):
+    if dotted in ("numpy", "math", "os", "os.path", "sys", "warnings", "copy", "numpy.linalg", "re", "string"):
         return ModuleVal(dotted, external=dotted)
+    if mod == "re" and name in ("sub", "split", "match", "fullmatch", "search", "findall", "compile", "escape"):
+        import re as _re
+
+        def refn(*a, **k):
+            # the standard regular-expression library on concrete strings (library semantics, not repository code)
+            if not all(isinstance(x, (str, int)) or x is None for x in list(a) + list(k.values())):
+                raise AnalysisError(f"re.{name} on a symbolic string")
+            r = getattr(_re, name)(*a, **k)
+            if name in ("match", "fullmatch", "search"):
+                return None if r is None else I.new_obj("<match>", None, {"group0": r.group(0)})
+            if name == "compile":
+                raise AnalysisError("compiled regular expressions are not modelled")
+            return r
+        return Builtin(dotted, refn)
     if dotted == "copy.copy":
         return I.builtins["copy.copy"]
     if dotted == "functools.cmp_to_key":
